@@ -726,6 +726,10 @@ def run(prog, rep, tier):
         'safe_write=False is the documented unsafe mode and is excluded',
         'equality of resumed and uninterrupted numerical results is NOT decided',
     ]
+    from ..flow import check_dead_computations
+    rep.rule('VALUE-dead', 'no result of a call is bound to a local that is never read (reaching '
+             'definitions)')
+    check_dead_computations(prog, rep, ['tenpy/simulations/simulation.py', 'tenpy/simulations/time_evolution.py', 'tenpy/simulations/ground_state_search.py'])
     return rep.finish(
         level='other',
         explanation='Crash typestate: %d reachable abstract file states, %d crash/step '
